@@ -926,13 +926,24 @@ fn fiber_interplay(g: &mut Gen, out: &mut Vec<Stmt>) {
             ];
             let bl = lam(g, vec![], bb);
             out.push(Stmt::var(&b, Some(fnew(bl))));
-            let ab = vec![
+            // (a may itself have yielded and been resumed before it calls b: it is in the chain of
+            // calls all the same, and b's call of it is rejected)
+            let resumed_first = g.rd.flag();
+            let mut ab = vec![];
+            if resumed_first {
+                g.label_pub("reentry_into_resumed_fiber");
+                ab.push(Stmt::print(yld(Expr::str("a yields first"))));
+            }
+            ab.extend(vec![
                 Stmt::print(Expr::invoke(v(&b), "call", vec![])),
                 Stmt::print(Expr::invoke(v(&b), "call", vec![Expr::str("to b")])),
                 Stmt::new(StmtKind::Return(Some(Expr::str("a done")))),
-            ];
+            ]);
             let al = lam(g, vec![], ab);
             out.push(Stmt::expr(Expr::assign_var(&a, fnew(al))));
+            if resumed_first {
+                out.push(Stmt::print(Expr::invoke(v(&a), "call", vec![])));
+            }
             out.push(Stmt::print(Expr::invoke(v(&a), "call", vec![])));
             out.push(Stmt::print(Expr::VecLit(vec![Expr::invoke(v(&a), "has_finished", vec![]), Expr::invoke(v(&b), "has_finished", vec![])])));
         }
@@ -944,6 +955,9 @@ fn fiber_interplay(g: &mut Gen, out: &mut Vec<Stmt>) {
                 catch_print(g, vec![Stmt::print(Expr::invoke(v(&a), "call", vec![]))]),
                 Stmt::print(yld(n(1.0))),
                 catch_print(g, vec![Stmt::print(Expr::invoke(v(&a), "has_finished", vec![]))]),
+                // resumed by now: calling itself is rejected as it was in its first activation
+                catch_print(g, vec![Stmt::print(Expr::invoke(v(&a), "call", vec![]))]),
+                Stmt::print(Expr::str("a goes on after the rejected call")),
             ];
             let al = lam(g, vec![], ab);
             out.push(Stmt::expr(Expr::assign_var(&a, fnew(al))));
